@@ -3,6 +3,8 @@ import BoltonsVerif.Generated.C19_LineEndings
 import BoltonsVerif.PyRtLemmas
 import BoltonsVerif.C19.Model
 
+set_option linter.unusedSimpArgs false
+
 namespace C19
 
 open Src.strutils
@@ -31,7 +33,14 @@ theorem src_loop_spec {α : Type} (K : Int → List (List α)) (k kb : iter_spli
     intro s hk
     obtain ⟨a, b⟩ := m
     simp only [iter_splitlines.loop1, srcPiecesK]
-    split <;> split <;> simp_all
+    -- decide the two tests on the MODEL side's conditions (the way the source writes them does not matter)
+    have h2s : (s.loc2 = b) = (b = s.loc2) := propext eq_comm
+    by_cases h1 : s.loc1 ≤ a <;> by_cases h2 : b = s.loc2 <;>
+      (simp only [h2s, ge_iff_le, h1, h2, if_true, if_false, ite_true, ite_false, List.nil_append,
+         List.cons_append, List.singleton_append]
+       rw [ih]
+       intro s' ht hl
+       exact hk s' ht hl)
 
 theorem src_iter_splitlines_spec {α : Type} (t : List α) (ms : List (Int × Int)) :
     iter_splitlines t ms = srcPiecesK t (PyRt.len t) (srcTail t) 0 ms := by
